@@ -13,9 +13,16 @@ MUTATING_VEC = {"push", "pop", "retain", "clear", "truncate", "resize", "remove"
                 "extend", "sort", "sort_unstable", "dedup", "resize_with", "split_off", "retain_mut", "extend_from_slice"}
 
 
-def trace(F, fn, names):
+def trace(F, fn, names, expand=()):
     b = F.body(SM + fn)
-    t = Tracer(F, VEC + "|" + SM + r"\w+", mode="int")
+    # private helpers of the module (e.g. a "remove this value from a list" function) are expanded; `expand` names public methods of
+    # SparseMatrix to expand as well (toggle is read through insert / remove)
+    def inl(p):
+        if p in [SM + x for x in expand]:
+            return F.bodies.get(p)
+        return F.private_helper(p, "sparse::")
+    rx = VEC + "|" + SM + (r"(?!(?:%s)$)" % "|".join(expand) if expand else "") + r"\w+"
+    t = Tracer(F, rx, mode="int", inline=inl)
     env = {}
     for p, nm in zip(b.params, names):
         t.bind(p, var(nm), env)
@@ -59,6 +66,95 @@ def norm_effects(F, t, swap=False):
     return out
 
 
+def list_effects(F, t, row=None, col=None):
+    """canonical effects on the adjacency lists: (kind, list, value, loops, guards) with kind in push / remove-value / clear.
+    `l.retain(|x| x != v)` and `if let Some(p) = l.iter().position(|x| x == v) { l.remove(p) }` are both remove-value(l, v) (lists hold
+    no duplicates: insert is guarded by !contains); a test that (row, col) is present - contains(row, col), or the position search
+    itself - is the guard token PRESENT."""
+    from ..symx import canon_cond, unkey
+    from ..idioms import as_closure
+    R, Cc = var("row"), var("col")
+
+    def pred_eq(clo_key, tr_):
+        try:
+            pv = tr_.apply(as_closure(F, tr_, clo_key), [var("x")])
+        except Unsupported:
+            return None
+        if not isinstance(pv, Poly):
+            return None
+        c, pol = canon_cond(pv, True)
+        a = single_atom(c)
+        if a and atom_fn(a) == "eq" and var("x") in atom_args(a):
+            other = [y for y in atom_args(a) if y != var("x")]
+            return (other[0] if other else var("x")), pol
+        return None
+
+    def position_of(v):
+        """v == payload0(position(iter(L), |x| x == w)) -> (L, w, the position value)"""
+        a = single_atom(v) if isinstance(v, Poly) else None
+        if a and atom_fn(a) in ("payload0",):
+            pa = single_atom(atom_args(a)[0])
+        else:
+            pa = a
+        if pa and atom_fn(pa) == "std::iter::Iterator::position":
+            src, clo = pa[2], pa[3]
+            if isinstance(src, tuple) and src[0] == "iterdesc" and src[1][0] == "elems":
+                L = unkey(src[1][1])
+                pe = pred_eq(clo, t)
+                if pe and pe[1] is True:
+                    return L, pe[0], Poly.atom(pa)
+        return None
+
+    def canon_guard(g, p):
+        c, pol = canon_cond(g, p)
+        a = single_atom(c) if isinstance(c, Poly) else None
+        if a and atom_fn(a) == SM + "contains":
+            return ("PRESENT", tuple(sorted(map(repr, atom_args(a)[1:]))), pol)
+        if a and atom_fn(a) == "matches" and str(atom_args(a)[1]).startswith(("('Some'", "'None'")):
+            po = position_of(atom_args(a)[0])
+            if po is not None:
+                L, w, _ = po
+                la = single_atom(L)
+                if la and atom_fn(la) == "index":
+                    some = str(atom_args(a)[1]).startswith("('Some'")
+                    return ("PRESENT", tuple(sorted([repr(unkey(atom_args(la)[1])), repr(w)])), pol if some else not pol)
+        if a and atom_fn(a).endswith("::contains") and len(atom_args(a)) == 2:
+            la = single_atom(atom_args(a)[0]) if isinstance(atom_args(a)[0], Poly) else None
+            if la and atom_fn(la) == "index":
+                return ("PRESENT", tuple(sorted([repr(unkey(atom_args(la)[1])), repr(atom_args(a)[1])])), pol)
+        return (repr(c), pol)
+    from ..panics import unwrap_mut
+    out = []
+    for e in t.events:
+        base = e.callee.rsplit("::", 1)[-1]
+        if e.callee.startswith("<") or base not in MUTATING_VEC or e.callee.startswith(SM):
+            continue
+        L = unwrap_mut(e.args[0]) if isinstance(e.args[0], Poly) else e.args[0]
+        gs = [canon_guard(g, p) for g, p in e.guards]
+        loops = tuple(repr(l[2]) if l[0] == "iter" else repr(l) for l in e.loops)
+        if base == "push":
+            out.append(("push", repr(L), repr(e.args[1]), loops, frozenset(gs), e))
+        elif base == "retain":
+            pe = pred_eq(vkey(e.args[1]) if isinstance(e.args[1], tuple) and isinstance(e.args[1][1], dict) else e.args[1], t)
+            if pe and pe[1] is False:
+                out.append(("remove-value", repr(L), repr(pe[0]), loops, frozenset(gs), e))
+            else:
+                out.append(("retain?", repr(L), repr(e.args[1])[:60], loops, frozenset(gs), e))
+        elif base == "remove":
+            po = position_of(e.args[1])
+            if po is not None and repr(unwrap_mut(po[0])) == repr(L):
+                # the guard "the position search found it" is intrinsic to the removal
+                key = ("PRESENT", tuple(sorted([repr(unkey(atom_args(single_atom(L))[1])) if single_atom(L) is not None and atom_fn(single_atom(L)) == "index" else "?", repr(po[1])])), True)
+                rest = [g for g in gs if g != key]
+                intrinsic = len(rest) < len(gs)
+                out.append(("remove-value" if intrinsic else "remove-unguarded?", repr(L), repr(po[1]), loops, frozenset(rest) | ({key} if False else set()), e, key))
+            else:
+                out.append(("remove-at?", repr(L), repr(e.args[1])[:60], loops, frozenset(gs), e))
+        else:
+            out.append((base, repr(L), "", loops, frozenset(gs), e))
+    return out
+
+
 def run(ck, F, tier):
     ck.explanation = (
         "Decided (S): X1 every &mut method of SparseMatrix performs mirrored effects on the row lists and the column lists "
@@ -90,60 +186,48 @@ def run(ck, F, tier):
     ck.inst("X1", "insert", got == want and all(e.guards == [guard] for e in ev) and len(ev) == 2, b.span,
             "insert: %s under guard %s ; required rows[row].push(col) and cols[col].push(row), both only if !contains(row, col)" % (
                 sorted(got), ev[0].guards if ev else None))
+    def eff(fn, names, expand=()):
+        b_, t_, _ = trace(F, fn, names, expand=expand)
+        return b_, t_, list_effects(F, t_)
+
+    def strip_present(gs, keep_false=True):
+        """guards without the (redundant) 'the entry is present' condition of a removal"""
+        return frozenset(g for g in gs if not (g[0] == "PRESENT" and g[2] is True))
+    PRES = ("PRESENT", tuple(sorted(["row", "col"])))
     # ---- remove ----------------------------------------------------------------------
-    b, t, _ = trace(F, "remove", ("self", "row", "col"))
-    ev = [e for e in t.events if e.callee.rsplit("::", 1)[-1] in MUTATING_VEC]
-    got = set()
-    for e in ev:
-        pred = SymEval(F).apply(e.args[1], [var("x")]) if len(e.args) > 1 and isinstance(e.args[1], tuple) and e.args[1][0] == "closure" else None
-        got.add((e.callee.rsplit("::", 1)[-1], repr(e.args[0]), repr(pred)))
-    X = var("x")
-    want = {("retain", repr(idx(ROWS, R)), repr(app("ne", Cc, X))), ("retain", repr(idx(COLS, Cc)), repr(app("ne", R, X)))}
-    want2 = {(a, b_, c.replace("ne(col, x)", "ne(x, col)")) for a, b_, c in want}
-    def canon(s):
-        return {(a, b_, re.sub(r"ne\((\w+), (\w+)\)", lambda m: "ne(%s)" % ",".join(sorted(m.groups())), c)) for a, b_, c in s}
-    ck.inst("X1", "remove", canon(got) == canon(want) and len(ev) == 2 and not any(e.guards for e in ev), b.span,
-            "remove: %s ; required rows[row].retain(x != col) and cols[col].retain(x != row), unconditionally" % sorted(got))
-    # ---- toggle ----------------------------------------------------------------------
-    b, t, _ = trace(F, "toggle", ("self", "row", "col"))
-    ev = [e for e in t.events if e.callee.rsplit("::", 1)[-1] in ("insert", "remove")]
-    S = var("self")
-    cont = app(SM + "contains", S, R, Cc)
-    ok = len(ev) == 2
-    if ok:
-        m = {e.callee.rsplit("::", 1)[-1]: e for e in ev}
-        ok = set(m) == {"insert", "remove"} and all(e.args[1:] == [R, Cc] for e in ev)
-        if ok:
-            def pol(e):
-                g, p = e.guards[0]
-                if g == app("matches", cont, "True"):
-                    return p
-                if g == app("matches", cont, "False"):
-                    return not p
-                if g == cont:
-                    return p
-                return None
-            ok = len(m["remove"].guards) == 1 and len(m["insert"].guards) == 1 and pol(m["remove"]) is True and pol(m["insert"]) is False
-    ck.inst("X1", "toggle", ok, b.span, "toggle(row, col) = if contains(row, col) { remove(row, col) } else { insert(row, col) } on the same coordinates")
+    b, t, fx = eff("remove", ("self", "row", "col"))
+    got = {(k[0], k[1], k[2], strip_present(k[4])) for k in fx}
+    want = {("remove-value", repr(idx(ROWS, R)), repr(Cc), frozenset()), ("remove-value", repr(idx(COLS, Cc)), repr(R), frozenset())}
+    ck.inst("X1", "remove", got == want and len(fx) == 2 and not any(k[3] for k in fx), b.span,
+            "remove: %s ; required: col leaves rows[row] and row leaves cols[col], whenever present" % sorted((k[0], k[1], k[2]) for k in fx))
+    # ---- toggle (read through insert / remove) -----------------------------------------
+    b, t, fx = eff("toggle", ("self", "row", "col"), expand=("insert", "remove"))
+    pushes = {(k[1], k[2]) for k in fx if k[0] == "push" and {g for g in k[4]} == {PRES + (False,)}}
+    removes = {(k[1], k[2]) for k in fx if k[0] == "remove-value" and strip_present(k[4]) == frozenset() and
+               all(g[1] == PRES[1] for g in k[4] if g[0] == "PRESENT")}
+    others = [k for k in fx if not ((k[0] == "push" and (k[1], k[2]) in pushes) or (k[0] == "remove-value" and (k[1], k[2]) in removes))]
+    want_pairs = {(repr(idx(ROWS, R)), repr(Cc)), (repr(idx(COLS, Cc)), repr(R))}
+    # the removals must be tied to presence (not unconditional) unless the pushes are tied to absence - both hold in a correct toggle
+    rem_guarded = all(any(g[0] == "PRESENT" and g[2] is True for g in k[4]) or k[0] != "remove-value" or len(k) > 6 for k in fx)
+    ok = pushes == want_pairs and removes == want_pairs and not others and rem_guarded and not any(k[3] for k in fx)
+    ck.inst("X1", "toggle", ok, b.span, "toggle(row, col): when (row, col) is present it is removed from both lists, otherwise appended to both (same coordinates) "
+            "[appends %s, removals %s, other effects %d]" % (sorted(pushes), sorted(removes), len(others)))
     # ---- clear_row / clear_col (mirror pair) -------------------------------------------
     for fn, names, lst, oth, ix in (("clear_row", ("self", "row"), ROWS, COLS, R), ("clear_col", ("self", "col"), COLS, ROWS, Cc)):
-        b, t, _ = trace(F, fn, names)
-        ev = [e for e in t.events if e.callee.rsplit("::", 1)[-1] in MUTATING_VEC]
-        ok = len(ev) == 2
-        why = "%d list mutations" % len(ev)
+        b, t, fx = eff(fn, names)
+        ok = len(fx) == 2
+        why = "%d list mutations" % len(fx)
         if ok:
-            e1, e2 = ev
-            # e1: oth[c].retain(x != ix) for c in lst[ix]
-            lp = e1.loops
+            e1, e2 = fx
+            ev1, ev2 = e1[5], e2[5]
+            lp = ev1.loops
             el = None
             if len(lp) == 1 and lp[0][0] == "iter" and lp[0][2] == ("elems", idx(lst, ix)):
                 el = app("elem", idx(lst, ix), var(lp[0][1]))
-            pred = SymEval(F).apply(e1.args[1], [var("x")]) if len(e1.args) > 1 and isinstance(e1.args[1], tuple) else None
-            ok = (e1.callee.endswith("::retain") and el is not None and e1.args[0] == idx(oth, el)
-                  and pred in (app("ne", ix, var("x")), app("ne", var("x"), ix)) and not e1.guards
-                  and e2.callee.endswith("::clear") and e2.args[0] == idx(lst, ix) and not e2.loops and not e2.guards
-                  and t.events.index(e1) < t.events.index(e2))
-            why = "for c in %s[i]: %s[c].retain(x != i); then %s[i].clear()  [%s]" % (repr(lst)[5:], repr(oth)[5:], repr(lst)[5:], ok)
+            ok = (e1[0] == "remove-value" and el is not None and e1[1] == repr(idx(oth, el)) and e1[2] == repr(ix) and strip_present(e1[4]) == frozenset()
+                  and e2[0] == "clear" and e2[1] == repr(idx(lst, ix)) and not ev2.loops and not ev2.guards
+                  and ev1.seq < ev2.seq)
+            why = "for c in %s[i]: i leaves %s[c]; then %s[i].clear()  [%s]" % (repr(lst)[5:], repr(oth)[5:], repr(lst)[5:], ok)
         ck.inst("X1", fn, ok, b.span, why)
     # ---- insert_row / insert_col, set_row / set_col -------------------------------------
     for fn, names, order in (("insert_row", ("self", "row", "cols"), "rc"), ("insert_col", ("self", "col", "rows"), "cr")):
@@ -172,8 +256,26 @@ def run(ck, F, tier):
                            ("set_row", ("self", "row", "cols"), "set_col", ("self", "col", "rows"))):
         _, t1, _ = trace(F, f1, n1)
         _, t2, _ = trace(F, f2, n2)
-        a = sorted(norm_effects(F, t1, swap=True))
-        b_ = sorted(norm_effects(F, t2, swap=False))
+        SWm = {"rows": "cols", "cols": "rows", "row": "col", "col": "row"}
+
+        def canon_side(t_, swap):
+            out_ = []
+            for k in list_effects(F, t_):
+                gs = sorted((g if k[0] != "remove-value" else g) for g in k[4] if not (k[0] == "remove-value" and g[0] == "PRESENT" and g[2] is True))
+                d = repr((k[0], k[1], k[2], k[3], gs))
+                if swap:
+                    d = re.sub(r"(?<![A-Za-z0-9])(rows|cols|row|col)(?![A-Za-z0-9_])", lambda m: SWm[m.group(1)], d)
+                    d = re.sub(r"\('PRESENT', \('(\w+)', '(\w+)'\)", lambda m: "('PRESENT', ('%s', '%s')" % tuple(sorted(m.groups())), d)
+                out_.append(d)
+            # calls of other SparseMatrix methods (insert_row -> insert ..): as before, with canonical path conditions
+            class _T:
+                pass
+            tt = _T()
+            tt.events = [e for e in t_.events if e.callee.startswith(SM)]
+            out_ += norm_effects(F, tt, swap=swap)
+            return sorted(out_)
+        a = canon_side(t1, True)
+        b_ = canon_side(t2, False)
         ck.inst("X1", "mirror:%s~%s" % (f1, f2), a == b_, F.body(SM + f1).span,
                 "effects of %s under rows<->cols, row<->col equal the effects of %s" % (f1, f2) if a == b_ else
                 "not mirror images: %s vs %s" % ([x[:90] for x in a], [x[:90] for x in b_]))
